@@ -73,7 +73,7 @@ CLAIMS = {
     ),
     'C11': (
         'processed_len == checked sum for all (len, tail_len); finalize returns TooLargeInput exactly when the fed total exceeds 4,224,281,216 or is unknown, and length code 169 at the maximum (lemma F with symbolic full-range len); update at the 2^32-4 saturation boundary: for every amount of room 0..5 and piece length up to 6 (concrete), exactly the bytes below the mark are consumed (call trace), len never wraps (overflow checks on), processed_len turns None exactly at 2^32.',
-        "Trusted: Kani's MIR->goto translation, CBMC 6.11 + CaDiCaL, the reference model in harness/refmodel.rs (independent table copies), the stubs listed per harness in the evidence (each a model of an unsupported intrinsic, a proved contract, or a caller-supplied trait impl). Outside the bound: a single update call with a slice >= 4 GiB (the unwrap_or(u32::MAX) arm: such a slice cannot be represented); `len` is concrete at the boundary instances and at one interior point (a symbolic-len instance is in the thorough tier); real multi-GiB streams are not fed.",
+        "Trusted: Kani's MIR->goto translation, CBMC 6.11 + CaDiCaL, the reference model in harness/refmodel.rs (independent table copies), the stubs listed per harness in the evidence (each a model of an unsupported intrinsic, a proved contract, or a caller-supplied trait impl). Outside the bound: a single update call with a slice >= 4 GiB (the unwrap_or(u32::MAX) arm: such a slice cannot be represented); `len` is concrete: every amount of room 0..5 before the 2^32-4 mark and one interior point (a symbolic-len update harness needs 38.5 M SAT variables and does not fit in memory); real multi-GiB streams are not fed.",
         'Kani/CBMC bounded model checking (SAT) of the compiled MIR with symbolic inputs; lemma decomposition; native replay of counterexamples',
         'DESIGN.md section 5, C11',
     ),
